@@ -945,6 +945,6 @@ func init() {
 				{Name: "race", Mode: "api", Race: true, Shards: 8, Timeout: 60 * time.Minute},
 			}
 		},
-		Rule:        "192 (2400) sequences. Per sequence: three DAG definitions whose histories are produced by the real agent under the scripted executor (1-3 runs each: finished, failed, or crashed = last recorded line still running and no socket; or never run), in two of three sequences one DAG is RUNNING (an in-process agent held open by a step that never returns, real unix socket). Then 14 (24) actions against the assembled go-swagger API (swagger validation in the loop) with a recorder as the executable: start (18 parameter strings: empty, spaces, quotes, '=', $, backticks, backslash, unicode, leading/trailing blanks), stop, mark-success / mark-failed (valid, missing, unknown request id and step; older and latest runs; crashed runs), retry (with/without request id), suspend, unknown action, missing action, empty rename, invalid save, actions on an unknown DAG. Oracle per action from ground truth (the harness knows which DAG it holds running): start while running => 4xx, no spawn, stores byte-identical; start otherwise => exactly one spawn whose -p argument, unquoted as cmd/start.go does, equals the request's params byte for byte (no -p when empty); stop when not running => 4xx, nothing changes; stop when running => the held agent's run ends; mark-* while running => 4xx, nothing changes; accepted mark => exactly one file changes (the addressed run's), exactly one line is appended, and that line differs from the previous last line only in the addressed step's state (plus running->failed relabelling of a crashed run); malformed / unknown => 4xx/5xx and the byte-level dump of data, DAGs and suspend directories is identical. Non-trivial/distinct = sequences (by their action lists); evaluations = actions.",
+		Rule:        "192 (2400) sequences. Per sequence: three DAG definitions whose histories are produced by the real agent under the scripted executor (1-3 runs each: finished, failed, or crashed = last recorded line still running and no socket; or never run), in two of three sequences one DAG is RUNNING (an in-process agent held open by a step that never returns, or held in its onFailure / onExit handler, real unix socket; every fourth such run has a 1.5 MB step description, so that the status document the agent serves is above 1 MiB). One sequence in six contains an edit against an agent whose socket accepts and never answers, followed by an accepted edit of another step of the same run. Then 14 (24) actions against the assembled go-swagger API (swagger validation in the loop) with a recorder as the executable: start (18 parameter strings: empty, spaces, quotes, '=', $, backticks, backslash, unicode, leading/trailing blanks), stop, mark-success / mark-failed (valid, missing, unknown request id and step; older and latest runs; crashed runs), retry (with/without request id), suspend, unknown action, missing action, empty rename, invalid save, actions on an unknown DAG. Oracle per action from ground truth (the harness knows which DAG it holds running): start while running => 4xx, no spawn, stores byte-identical; start otherwise => exactly one spawn whose -p argument, unquoted as cmd/start.go does, equals the request's params byte for byte (no -p when empty); stop when not running => 4xx, nothing changes; stop when running => the held agent's run ends; mark-* while running => 4xx, nothing changes; accepted mark => exactly one file changes (the addressed run's), exactly one line is appended, and that line differs from the previous last line only in the addressed step's state (plus running->failed relabelling of a crashed run); malformed / unknown => 4xx/5xx and the byte-level dump of data, DAGs and suspend directories is identical. Non-trivial/distinct = sequences (by their action lists); evaluations = actions.",
 		Assumptions: []string{"newlines in start parameters are not generated (client.escapeArg rewrites them deliberately)", "suspend with a non-boolean value is not judged"}})
 }
